@@ -218,6 +218,27 @@ def decimal_corpus():
     return out
 
 
+def hex_spellings(rng, pkg):
+    """messages whose 32 "hex bitmap" characters are something int(.., 16) or bytes.fromhex would tolerate (sign, blanks,
+    underscores, 0x) followed by element data laid out for the bitmap such a lenient reading produces"""
+    out = []
+    for codec in ('latin_1', 'cp500'):
+        for bits in ([5, 6], [2], [3, 4, 12], [24, 71]):
+            value = sum(1 << (128 - b) for b in bits)
+            fields = {f'DE{b}': iu.gen_value(rng, pkg[str(b)], codec)[0] for b in bits}
+            body = b''.join(iu.ref_render(pkg[str(b)], fields[f'DE{b}'], codec) for b in bits)
+            h31, h30 = '%031x' % value, '%030x' % value if value < 16 ** 30 else None
+            spell = [' ' + h31, '+' + h31, h31 + ' ', h31[:5] + '_' + h31[5:], h31 + '\n', '\t' + h31]
+            if h30:
+                spell += ['  ' + h30, h30[:8] + '  ' + h30[8:], ' ' + h30 + ' ', h30[:3] + '__' + h30[3:], '0x' + h30,
+                          h30[:16] + ' ' + h30[16:] + ' ']
+            spell += [' ' * 32, '0' * 16 + ' ' * 16, ' ' * 16 + '0' * 16]
+            for sp in spell:
+                if len(sp) == 32:
+                    out.append((codec, '1240'.encode(codec) + sp.encode('ascii') + body))
+    return out
+
+
 def mutants(rng, data, cfg, codec, hexbm, per_class, thorough):
     pos = positions(data, cfg, codec, hexbm)
     alpha = alphabet_bytes(codec)
@@ -296,6 +317,8 @@ def explore(run, tier):
     ]
     for cfg, codec, hexbm, data in corpus:
         cases.append({'k': 'msg', 'cfg': cfg, 'codec': codec, 'hex': hexbm, 'data': data.hex(), 'mut': 'corpus'})
+    for codec, data in hex_spellings(rng, pkg):
+        cases.append({'k': 'msg', 'cfg': 'pkg', 'codec': codec, 'hex': 1, 'data': data.hex(), 'mut': 'hexspelling'})
     for cfg, codec, data in decimal_corpus():
         cases.append({'k': 'msg', 'cfg': cfg, 'codec': codec, 'hex': 0, 'data': data.hex(), 'mut': 'decimal-corpus'})
     for _ in range(1500 if not thorough else 30000):
